@@ -25,8 +25,14 @@ RULE = ("random scenarios over both simulator classes: <=5 event programs (neste
 
 
 def generate(rng, tier, count):
-    for _ in range(count):
-        yield D.gen_scenario(rng)
+    for i in range(count):
+        k = rng.random()
+        if k < 0.15:
+            yield D.gen_decimal(rng)
+        elif k < 0.27:
+            yield D.gen_peek_heavy(rng)
+        else:
+            yield D.gen_scenario(rng)
 
 
 run_impl = D.run_impl
